@@ -242,7 +242,7 @@ func c02ExtCheck(c c02Ext) vfResult {
 	defer func() { vfTreeRestore(); c02Registered = nil }()
 	for _, e := range c.Exts {
 		if err := e.apply(); err != nil {
-			return vfResult{Skip: "extend-parent-missing"}
+			return vfApplyFailed(err)
 		}
 	}
 	if c.OnResult {
